@@ -11,6 +11,9 @@
    Classes
      highdeg     evaluations of a polynomial of degree bound+1 .. n-1 (degree n-1 with seeded
                  coefficients = an arbitrary function on the domain), honest prover, many queries
+     lowzero     a polynomial x^z * g(x) of degree above the bound (up to 2*bound - 1) whose z lowest
+                 coefficients vanish (z = bound, bound / 2, or seeded): the folded remainder then has
+                 vanishing LOW-order coefficients, which a degree count from the wrong end would skip
      killed      a polynomial of degree bound+2 whose excess TLC's alpha cancels in the first fold
                  (N = 2): the specification says ACCEPT — the inherent soundness error of FRI, hit on
                  purpose; shows that expectations are computed, both ways
@@ -39,7 +42,7 @@ CONSTANTS MinLogN, MaxLogN, Variants, NReal, RealMaxLogN
 BlowupsAll == {2, 4, 8, 16}
 FoldingsAll == {2, 4, 8, 16}
 RemDegsAll == 0..15
-Classes == <<"highdeg", "under", "under2", "layer", "kernel", "rem", "remcraft", "evalchg", "each">>
+Classes == <<"highdeg", "lowzero", "under", "under2", "layer", "kernel", "rem", "remcraft", "evalchg", "each">>
 
 VARIABLES case, phase
 vars == <<case, phase>>
@@ -105,6 +108,26 @@ HighDeg(c, j) ==
       ci == Inst(b, FullPoly(b.P, b.d, b.s, deg + 1), b.alphas, ManyPos(b.s, b.n))
       t == Transcript(ci)
   IN Out("highdeg", b, ci, t, b.bound - 1, HonestPrf(ci, t), QueryEvals(ci), <<"degree", deg>>)
+
+LowZero(c, j) ==
+  LET b == Base(c, j, "lowzero")
+      deg == CASE j % 3 = 0 -> 2 * b.bound - 1 [] j % 3 = 1 -> b.bound + (b.bound \div 2) [] OTHER -> b.bound + (Rnd(b.s, 8) % b.bound)
+      z == CASE j % 3 = 0 -> b.bound [] j % 3 = 1 -> b.bound [] OTHER -> 1 + (Rnd(b.s, 9) % deg)
+      g == FullPoly(b.P, b.d, b.s, deg + 1)
+      poly == Force([i \in 1..(deg + 1) |-> IF i <= z THEN EZero(b.d) ELSE g[i]], deg + 1)
+      ci == Inst(b, poly, b.alphas, ManyPos(b.s, b.n))            \* what the verifier is told: blowup B, remainder R
+      \* the prover runs the honest algorithm with HALF the blowup and remainder degree 2R + 1 over the same
+      \* domain: same number of layers, and its remainder keeps all coefficients of the over-degree polynomial
+      cp == [ci EXCEPT !.B = b.B \div 2, !.R = 2 * b.R + 1]
+      t == Transcript(cp)
+      o == Opts(ci)
+      com == HonestCom(cp, t)
+      prf == HonestPrf(cp, t)
+      qe == QueryEvals(ci)
+  IN [Out("lowzero", b, ci, t, b.bound - 1, prf, qe, <<"degree", deg, "zeros", z>>)
+        EXCEPT !.strict = Verdict(o, b.bound - 1, com, prf, qe, ci.pos, TRUE),
+               !.perm = Verdict(o, b.bound - 1, com, prf, qe, ci.pos, FALSE)]
+     @@ [pB |-> cp.B, pR |-> cp.R]
 
 \* f = g + x^bound * (1 + a*x), deg g < bound, and alpha_1 = -1/a with folding 2 and an even bound:
 \* the first fold maps x^bound -> y^(bound/2) and a*x^(bound+1) -> alpha*a*y^(bound/2): they cancel
@@ -253,10 +276,11 @@ Applicable(cls, c) ==
     [] cls = "under2" -> c.n \div c.B >= 4
     [] cls = "remcraft" -> (c.n \div IPow(c.N, c.L)) \div c.B >= 2
     [] cls = "each" -> c.n <= 64
+    [] cls = "lowzero" -> c.B >= 4 /\ c.n \div c.B >= 2 /\ c.L >= 1
     [] OTHER -> c.n \div c.B < c.n
 
 Build(cls, c, j) ==
-  CASE cls = "highdeg" -> HighDeg(c, j) [] cls = "killed" -> Killed(c, j) [] cls = "under" -> Under(c, j)
+  CASE cls = "highdeg" -> HighDeg(c, j) [] cls = "lowzero" -> LowZero(c, j) [] cls = "killed" -> Killed(c, j) [] cls = "under" -> Under(c, j)
     [] cls = "under2" -> Under2(c, j)   [] cls = "layer" -> Layer(c, j)   [] cls = "kernel" -> Kernel(c, j)
     [] cls = "rem" -> Rem(c, j)         [] cls = "remcraft" -> RemCraft(c, j) [] cls = "evalchg" -> EvalChg(c, j)
     [] cls = "each" -> Each(c, j)
